@@ -15,6 +15,14 @@
 (*     affine     row start + i * column 0 equals the per-pixel rounded product             *)
 (*     quot       the long division used for the homogeneous divide: floor, remainder, band *)
 (*     mul        MulRound16 equals (a * b + 0x8000) >> 16                                  *)
+(*     pfmul      the <<whole, frac>> pair product of FetchFar against double-and-add       *)
+(*     pfhalf     halving a pair is floor (v / 2)                                           *)
+(*     pfpos      PosPF equals AffinePos wherever the latter fits 32 bits; twenty-seven     *)
+(*     farcase    positions beyond 32 bits against values computed with unbounded integers  *)
+(*     faroff     sampling the view At(img, ox, oy) at (p, q) is sampling img at            *)
+(*                (p + ox, q + oy), for every filter and repeat mode                        *)
+(*     shows      what each destination format shows of a sample (565 -> 8888 -> 565 is     *)
+(*                the identity)                                                             *)
 (* (2) A small state machine over the actions of Sample.tla (two images, eleven transforms, *)
 (*     five filters, four repeat modes, a few requests) with invariants that relate         *)
 (*     configurations: identity / integer translation copy pixels, a horizontal flip        *)
@@ -23,11 +31,12 @@
 (*     (floating point) evaluation.                                                         *)
 (* Negative configurations (must be rejected): Fix = 0 (REFLECT off by one),                *)
 (* Mutant = "ties_up" (NEAREST rounding ties up), Mutant = "kernel_up" (even kernels        *)
-(* aligned one pixel late).                                                                 *)
+(* aligned one pixel late), Mutant = "pf_nocarry" (pair product drops the carry of the      *)
+(* fractional half).                                                                        *)
 EXTENDS Sample, TLC
 
 CONSTANTS Fix,        \* 1; the negative configuration sets 0
-          Mutant      \* "none" | "ties_up" | "kernel_up"
+          Mutant      \* "none" | "ties_up" | "kernel_up" | "pf_nocarry"
 
 VARIABLE probe
 
@@ -35,13 +44,19 @@ MRepeat(mode, c, size) == RepeatIdxM(mode, c, size, Fix)
 MNearestIdx(p) == IF Mutant = "ties_up" THEN Floor16(p) ELSE NearestIdx(p)
 MKernelStart(p, w16) == IF Mutant = "kernel_up" THEN Floor16(p - ((w16 - One) \div 2)) ELSE KernelStart(p, w16)
 
+MPFMulNat(v, k) ==
+    IF Mutant = "pf_nocarry"
+    THEN LET vh == v \div One  vl == v % One  kh == k \div 256  kl == k % 256  t == vl * kh IN
+         <<vh * k + t \div 256, ((t % 256) * 256 + vl * kl) % One>>
+    ELSE PFMulNat(v, k)
+
 (* ---------------------------------------------------------------------------------------- *)
 (* images and configurations of the scope                                                   *)
 
-Img2 == [fmt |-> "a8r8g8b8", w |-> 2, h |-> 1, pix |-> << << <<4660, 22136>>, <<65244, 47768>> >> >>]
-Img3 == [fmt |-> "a8r8g8b8", w |-> 3, h |-> 2,
-         pix |-> << << <<257, 514>>, <<771, 1028>>, <<1285, 1542>> >>,
-                    << <<33153, 33410>>, <<33667, 33924>>, <<34181, 65535>> >> >>]
+Img2 == MkImage("a8r8g8b8", 2, 1, << << <<4660, 22136>>, <<65244, 47768>> >> >>)
+Img3 == MkImage("a8r8g8b8", 3, 2,
+                << << <<257, 514>>, <<771, 1028>>, <<1285, 1542>> >>,
+                   << <<33153, 33410>>, <<33667, 33924>>, <<34181, 65535>> >> >>)
 Imgs == {Img2, Img3}
 
 Tr(tx, ty) == <<<<One, 0, tx>>, <<0, One, ty>>, <<0, 0, One>>>>
@@ -67,6 +82,36 @@ ScaleAll(m, k) == [r \in 1..3 |-> [c \in 1..3 |-> k * m[r][c]]]
 
 Positions == {k * One + d : k \in -3..3, d \in {-2, -1, 0, 1, 2, 511, 512, 513, Half - 1, Half, Half + 1, One - 512}}
 
+\* positions beyond 32 bits, computed with unbounded integers (Python): ((m[r] . (2x+1, 2y+1, 2)) + 1) // 2
+FarCases ==
+    {[m |-> <<<<1048576, 0, -1966080000>>, <<0, 65536, 0>>, <<0, 0, One>>>>, x |-> -32768, y |-> -32768, p |-> <<-554280, 0>>, q |-> <<-32768, 32768>>],
+     [m |-> <<<<1048576, 0, -1966080000>>, <<0, 65536, 0>>, <<0, 0, One>>>>, x |-> 32766, y |-> 32766, p |-> <<494264, 0>>, q |-> <<32766, 32768>>],
+     [m |-> <<<<1048576, 0, -1966080000>>, <<0, 65536, 0>>, <<0, 0, One>>>>, x |-> -1, y |-> -1, p |-> <<-30008, 0>>, q |-> <<-1, 32768>>],
+     [m |-> <<<<1048576, 0, -1966080000>>, <<0, 65536, 0>>, <<0, 0, One>>>>, x |-> 12345, y |-> -3, p |-> <<167528, 0>>, q |-> <<-3, 32768>>],
+     [m |-> <<<<65536, 0, 0>>, <<0, 65536, 0>>, <<0, 0, One>>>>, x |-> 1875, y |-> 0, p |-> <<1875, 32768>>, q |-> <<0, 32768>>],
+     [m |-> <<<<65536, 0, 0>>, <<0, 65536, 0>>, <<0, 0, One>>>>, x |-> 29, y |-> -20000, p |-> <<29, 32768>>, q |-> <<-20000, 32768>>],
+     [m |-> <<<<65536, 0, 0>>, <<0, 65536, 0>>, <<0, 0, One>>>>, x |-> 32000, y |-> 3, p |-> <<32000, 32768>>, q |-> <<3, 32768>>],
+     [m |-> <<<<65536, 0, 0>>, <<0, 65536, 0>>, <<0, 0, One>>>>, x |-> 0, y |-> 0, p |-> <<0, 32768>>, q |-> <<0, 32768>>],
+     [m |-> <<<<65548345, 0, -2097152001>>, <<0, 21845, 2097217535>>, <<0, 0, One>>>>, x |-> 1875, y |-> 0, p |-> <<1843853, 18839>>, q |-> <<32001, 10922>>],
+     [m |-> <<<<65548345, 0, -2097152001>>, <<0, 21845, 2097217535>>, <<0, 0, One>>>>, x |-> 0, y |-> 0, p |-> <<-31500, 6172>>, q |-> <<32001, 10922>>],
+     [m |-> <<<<65548345, 0, -2097152001>>, <<0, 21845, 2097217535>>, <<0, 0, One>>>>, x |-> 12345, y |-> -3, p |-> <<12315825, 33997>>, q |-> <<32000, 10923>>],
+     [m |-> <<<<65548345, 0, -2097152001>>, <<0, 21845, 2097217535>>, <<0, 0, One>>>>, x |-> -1, y |-> -1, p |-> <<-32501, 59363>>, q |-> <<32000, 54613>>],
+     [m |-> <<<<-65536, 0, 1966080007>>, <<0, -458753, -2031616000>>, <<0, 0, One>>>>, x |-> 12345, y |-> -3, p |-> <<17654, 32775>>, q |-> <<-30983, 32771>>],
+     [m |-> <<<<-65536, 0, 1966080007>>, <<0, -458753, -2031616000>>, <<0, 0, One>>>>, x |-> 29, y |-> -20000, p |-> <<29970, 32775>>, q |-> <<108996, 52768>>],
+     [m |-> <<<<-65536, 0, 1966080007>>, <<0, -458753, -2031616000>>, <<0, 0, One>>>>, x |-> 0, y |-> 0, p |-> <<29999, 32775>>, q |-> <<-31004, 32768>>],
+     [m |-> <<<<-65536, 0, 1966080007>>, <<0, -458753, -2031616000>>, <<0, 0, One>>>>, x |-> 32000, y |-> 3, p |-> <<-2001, 32775>>, q |-> <<-31025, 32765>>],
+     [m |-> <<<<0, -65536, 2097152000>>, <<65536, 0, -2097119232>>, <<0, 0, One>>>>, x |-> 0, y |-> 0, p |-> <<31999, 32768>>, q |-> <<-31999, 0>>],
+     [m |-> <<<<0, -65536, 2097152000>>, <<65536, 0, -2097119232>>, <<0, 0, One>>>>, x |-> -32768, y |-> -32768, p |-> <<64767, 32768>>, q |-> <<-64767, 0>>],
+     [m |-> <<<<0, -65536, 2097152000>>, <<65536, 0, -2097119232>>, <<0, 0, One>>>>, x |-> 12345, y |-> -3, p |-> <<32002, 32768>>, q |-> <<-19654, 0>>],
+     [m |-> <<<<0, -65536, 2097152000>>, <<65536, 0, -2097119232>>, <<0, 0, One>>>>, x |-> 1875, y |-> 0, p |-> <<31999, 32768>>, q |-> <<-30124, 0>>],
+     [m |-> <<<<32769, 77, -1966047233>>, <<-3, 21845, 1310720001>>, <<0, 0, One>>>>, x |-> 32000, y |-> 3, p |-> <<-13999, 15885>>, q |-> <<19999, 45993>>],
+     [m |-> <<<<32769, 77, -1966047233>>, <<-3, 21845, 1310720001>>, <<0, 0, One>>>>, x |-> 12345, y |-> -3, p |-> <<-23827, 28536>>, q |-> <<19998, 39424>>],
+     [m |-> <<<<32769, 77, -1966047233>>, <<-3, 21845, 1310720001>>, <<0, 0, One>>>>, x |-> -1, y |-> -1, p |-> <<-30000, 16344>>, q |-> <<19999, 54616>>],
+     [m |-> <<<<32769, 77, -1966047233>>, <<-3, 21845, 1310720001>>, <<0, 0, One>>>>, x |-> 0, y |-> 0, p |-> <<-30000, 49190>>, q |-> <<20000, 10922>>],
+     [m |-> <<<<2147483647, 0, -2147418112>>, <<0, 2, 2147483647>>, <<0, 0, One>>>>, x |-> 29, y |-> -20000, p |-> <<933888, 65507>>, q |-> <<32767, 25536>>],
+     [m |-> <<<<2147483647, 0, -2147418112>>, <<0, 2, 2147483647>>, <<0, 0, One>>>>, x |-> 0, y |-> 0, p |-> <<-16383, 0>>, q |-> <<32768, 0>>],
+     [m |-> <<<<2147483647, 0, -2147418112>>, <<0, 2, 2147483647>>, <<0, 0, One>>>>, x |-> 1875, y |-> 0, p |-> <<61423616, 63661>>, q |-> <<32768, 0>>]}
+
 ProbeSet ==
     [kind : {"repeat"}, mode : Modes, size : 1..5, c : -12..12]
     \cup [kind : {"weight"}, wx : 0..127, wy : 0..127]
@@ -77,6 +122,15 @@ ProbeSet ==
     \cup [kind : {"affine"}, m : Mats(3), x0 : -3..3, y : -2..2]
     \cup [kind : {"quot"}, num : (-40..40) \cup {-12345, 12345, 16383}, den : {-1000, -64, -7, -3, -1, 1, 3, 7, 64, 1000}]
     \cup [kind : {"mul"}, a : {-32768, -1161, -1, 0, 1, 255, 15270, 32767}, b : {-40000, -5498, -1, 0, 1, 256, 56925, 65535}]
+    \cup [kind : {"pfmul"}, v : {-2147483647, -2147418113, -65548345, -65537, -65536, -65535, -1, 0, 1, 255, 65535, 65536, 65537,
+                                 1048576, 65548345, 2147418112, 2147483647},
+                            k : {0, 1, 2, 3, 255, 256, 257, 511, 4097, 65535, 65536, 65537, 131071, 262143}]
+    \cup [kind : {"pfhalf"}, h : -4..4, lo : {0, 1, 2, 3, 32767, 32768, 65534, 65535}]
+    \cup [kind : {"pfpos"}, m : Mats(3), x : -3..3, y : -2..2]
+    \cup [kind : {"farcase"}, c : FarCases]
+    \cup [kind : {"faroff"}, img : Imgs, mode : Modes, flt : Filters, ox : {-7, -1, 0, 2, 5}, oy : {-3, 0, 1},
+                             p : {0, 1, Half - 1, Half, One - 1}, q : {0, Half, One - 1}]
+    \cup [kind : {"shows"}, hi : {0, 1, 255, 256, 32896, 65280, 65535}, lo : {0, 1, 31, 32, 2047, 2048, 4660, 33153, 65535}]
 
 RECURSIVE Mirror(_, _)
 Mirror(c, size) ==       \* reflect c at the image edges until it lies inside
@@ -147,6 +201,42 @@ QuotOK(pr) ==
 
 MulOK(pr) == MulRound16(pr.a, pr.b) = (pr.a * pr.b + Half) \div One
 
+RECURSIVE SlowMul(_, _)
+SlowMul(v, k) ==           \* v * k as a pair by double-and-add
+    IF k = 0 THEN <<0, 0>>
+    ELSE LET h == SlowMul(v, k \div 2)  d == PFAdd(h, h) IN IF k % 2 = 1 THEN PFAdd(d, PF(0, v)) ELSE d
+
+PfMulOK(pr) ==
+    FarMulOK(pr.v, pr.k) =>
+        LET a == MPFMulNat(pr.v, pr.k)  b == SlowMul(pr.v, pr.k) IN
+        /\ a = b /\ a[2] \in 0..(One - 1)
+        /\ PFMulInt(pr.v, -pr.k) = PFNeg(b)
+        /\ PFAdd(PFMulInt(pr.v, -pr.k), b) = <<0, 0>>
+
+PfHalfOK(pr) ==
+    LET v == pr.h * One + pr.lo  r == PFHalf(<<pr.h, pr.lo>>) IN r = <<(v \div 2) \div One, (v \div 2) % One>>
+
+PfPosOK(pr) ==
+    /\ FarRegular(pr.m, pr.x, pr.y)
+    /\ \A r \in 1..2 : LET a == AffinePos(pr.m, r, pr.x, pr.y) IN PosPF(pr.m, r, pr.x, pr.y) = <<a \div One, a % One>>
+
+FarCaseOK(pr) ==
+    LET c == pr.c IN
+    /\ \A r \in 1..2 : FarMulOK(c.m[r][1], 2 * c.x + 1) /\ FarMulOK(c.m[r][2], 2 * c.y + 1)
+    /\ PosPF(c.m, 1, c.x, c.y) = c.p /\ PosPF(c.m, 2, c.x, c.y) = c.q
+    /\ FarRegular(c.m, c.x, c.y) <=> (Abs(c.p[1]) <= FarMax /\ Abs(c.q[1]) <= FarMax)
+
+FarOffOK(pr) ==
+    SampleAt(At(pr.img, pr.ox, pr.oy), pr.flt, pr.mode, pr.p, pr.q) =
+        SampleAt(pr.img, pr.flt, pr.mode, pr.p + pr.ox * One, pr.q + pr.oy * One)
+
+ShowsOK(pr) ==
+    LET o == <<pr.hi, pr.lo>>  v == Expand("a8r8g8b8", o) IN
+    /\ Shows("a8r8g8b8", o, v) /\ Shows("x8r8g8b8", o, v) /\ Shows("x8r8g8b8", <<(pr.hi + 256) % One, pr.lo>>, v)
+    /\ (v[2] # 255 => ~Shows("x8r8g8b8", <<pr.hi + 1, pr.lo>>, v))
+    /\ Shows("r5g6b5", <<0, pr.lo>>, Expand("r5g6b5", <<0, pr.lo>>))
+    /\ Shows("r5g6b5", <<0, ((pr.hi % 256) \div 8) * 2048 + ((pr.lo \div 256) \div 4) * 32 + (pr.lo % 256) \div 8>>, v)
+
 ProbeOK ==
     CASE probe.kind = "repeat" -> RepeatOK(probe)
       [] probe.kind = "weight" -> WeightOK(probe)
@@ -157,6 +247,12 @@ ProbeOK ==
       [] probe.kind = "affine" -> AffineOK(probe)
       [] probe.kind = "quot"   -> QuotOK(probe)
       [] probe.kind = "mul"    -> MulOK(probe)
+      [] probe.kind = "pfmul"  -> PfMulOK(probe)
+      [] probe.kind = "pfhalf" -> PfHalfOK(probe)
+      [] probe.kind = "pfpos"  -> PfPosOK(probe)
+      [] probe.kind = "farcase" -> FarCaseOK(probe)
+      [] probe.kind = "faroff" -> FarOffOK(probe)
+      [] probe.kind = "shows"  -> ShowsOK(probe)
       [] OTHER -> TRUE
 
 (* ---------------------------------------------------------------------------------------- *)
